@@ -23,19 +23,10 @@ CHECKS = {
                      'vm_compute correspondence against every textual class',
     },
     'C01': {
-        'text': 'Partial proof. Kernel-checked well-formedness of every segment/field/datatype row of all 12 regenerated '
-                'version tables (Oblig/Wf_v*.v, WfAll.v: contiguous NAME_1..NAME_n rows, resolvable datatypes) plus the '
-                'round-trip theorems of Properties/C01.v about the executable Gallina model of parse_segment/'
-                'parse_field/parse_component and to_er7 (Model/Parser.v, Model/Encode.v); the model is run by '
-                'vm_compute on the same generated segment lines as hl7apy and the tree dump and encoding are compared '
-                'inside Coq; the oracle checks parse_x(text).to_er7()==text on canonical segments, fields, components '
-                'and whole messages (group finding on and off) of every version.',
-        'design_ref': 'DESIGN.md section 7 C01',
-        'note': 'Trusted: Coq kernel + vm_compute; translators gen_tables.py/gen_params.py; correspondence harness '
-                'segcorr.py. Message-level parse (header, group search) is not yet in the model: that clause is decided '
-                'by the oracle only. Leaves of DT/TM/DTM/NM/SI are restricted to values the factory keeps verbatim.',
-        'technique': 'Coq model of the segment parser/encoder + table obligations by vm_compute + model/implementation '
-                     'differential on generated segment lines',
+        'text': 'Proof. For every shipped version, every valid delimiter set and unbounded inputs: parse_segment -> to_er7 is the identity on every canonical line of every table segment, of Z-segments and of MSH (C01_segment, C01_segment_text, C01_segment_Z, C01_segment_MSH), parse_field / parse_component likewise (C01_field, C01_component), and whole messages with group finding off and on (C01_message_flat, C01_message_groups, via C08_same_encoding); built on a generic one-level codec lemma (C01_level) and split/join inverses, and on kernel-checked table obligations for all 12 regenerated versions (Oblig/Wf_v*, seg_tables_ok). The model (Model/Parser.v, Encode.v, Message.v) is run by vm_compute on the same generated lines as hl7apy (tree dump + encoding compared inside Coq); the oracle checks the identity on canonical segments, fields, components and messages (with Z-segments) of every version.',
+        'design_ref': 'DESIGN.md section 0.6 and section 7 C01',
+        'note': 'Trusted: Coq kernel + vm_compute; translators gen_tables.py/gen_params.py; harness segcorr.py/c01.py. No axioms. Theorems are for TOLERANT level, ASCII, the leaf function Model/Leaf.v (textual leaves exact; leaf hypotheses are discharged for escape fixed points); the message theorems assume the Message constructor accepts the header, and C01_message_groups is conditional on the grouped parse succeeding (admission is C08) and excludes v2.1 (inline group rows). Recorded finding F21 (escape sequences other than HNFSTRE(L)).',
+        'technique': 'Coq round-trip proofs over a model of the parser/encoder + exhaustive table obligations by vm_compute + model/implementation differential',
     },
     'C07': {
         'text': 'Proof (Coq): for every valid delimiter set and version, Message._set_encoding_chars/_get_encoding_chars '
@@ -51,16 +42,10 @@ CHECKS = {
                      'run on random delimiter sets',
     },
     'C15': {
-        'text': 'Partial proof. For ALL strings, _split_msh/get_message_type/get_message_info (and the header step of '
-                'parse_message) end in Ok, ParserError or InvalidEncodingChars - never IndexError/KeyError/TypeError/'
-                'AttributeError (C15_header_total etc., Model/Header.v with Python partial operations explicit). The '
-                'parse/encode/validate clauses are decided by the oracle on byte-level mutants of valid messages of '
-                'every version and on junk, both levels, both group modes; the header model is compared with the code '
-                'on all of them.',
-        'design_ref': 'DESIGN.md section 7 C15',
-        'note': 'Trusted: Coq kernel + vm_compute, harness c15.py/headercorr.py. No axioms. The tree parser/encoder/'
-                'validator are not covered by a crash-freedom theorem yet (oracle only). ASCII domain for the model.',
-        'technique': 'Coq totality proof of the header functions + outcome-class differential + crash oracle on mutants',
+        'text': 'Proof. For ALL strings: the header functions end in Ok / ParserError / InvalidEncodingChars (C15_header_total ...); for every text, every shipped version, both levels, every delimiter set: parse_segment is Ok or an HL7 exception - never IndexError/KeyError/TypeError/AttributeError, ValueError only under STRICT from the leaf (C15_parse_segment_no_crash, _any_leaf, _full_leaf with the C13 datatype layer), every parsed segment encodes (C15_enc_segment_total), parse_field/parse_component likewise, and parse_message on the flat path (C15_parse_message_flat_no_crash); Python partial operations are explicit Crash outcomes in the model and are shown unreachable from an invariant over well-formed tables (kernel-checked for the 12 versions). The grouped path, Message.to_er7 and validate() are decided by the oracle on byte-level mutants of valid messages of every version and junk.',
+        'design_ref': 'DESIGN.md section 0.6 and section 7 C15',
+        'note': 'Trusted: Coq kernel + vm_compute; translators; harness c15.py/headercorr.py. No axioms. ASCII domain. Not proved: grouped parse_message, enc_message totality, validator totality (oracle only).',
+        'technique': 'Coq unreachability proof of crash outcomes in the parser/encoder model + outcome-class differential + crash oracle on mutants',
     },
     'C16': {
         'text': 'Proof (Coq) about a per-connection Gallina model of the MLLP server (Model/Mllp.v): to_mllp framing '
@@ -79,29 +64,16 @@ CHECKS = {
                      'server',
     },
     'C02': {
-        'text': 'Partial proof. Kernel-checked obligation over ALL rows of all 12 regenerated version tables '
-                '(Oblig/Wf_v*.v: every segment lists NAME_1..NAME_n contiguously with sane cardinalities, every field and '
-                'component row resolves to a base datatype leaf, a varies leaf or a well-formed datatype struct) plus the '
-                'position theorems of Properties/C02.v about the parser/encoder model; the implementation is swept '
-                'EXHAUSTIVELY (23k field positions, 10k component/subcomponent positions, 29k instantiations, open-ended '
-                'segments) and the model re-parses the position texts.',
-        'design_ref': 'DESIGN.md section 7 C02',
-        'note': 'Trusted: Coq kernel + vm_compute; translator gen_tables.py; correspondence harness. The general position '
-                'lemmas for arbitrary well-formed tables are being proved in Proofs/RoundTrip*.v; until they are complete the '
-                'per-row claim rests on the exhaustive implementation sweep + the kernel-checked table obligation.',
-        'technique': 'exhaustive table obligations by vm_compute + Coq model differential + exhaustive position sweep',
+        'text': 'Proof. For every shipped version, every table segment (except the wildcard), every valid delimiter set: a leaf at field position i encodes as name + i separators + value, parses to exactly one child <SEG>_i holding it, and re-encodes to that line (C02_field_position, _varies, _untyped: every position of every version, none excluded); component j / subcomponent k likewise (C02_component_position, C02_subcomponent_position); Z-segments and varies-last segments for EVERY index i (C02_open_ended_Z, C02_open_ended_varies, unbounded). The per-row premises are kernel-checked over all ~35,000 regenerated table rows (Oblig/Wf_v*.v, seg_tables_ok). The implementation is swept exhaustively (23k field, 10k component/subcomponent positions, 29k instantiations, open-ended indices, multi-position assignment orders) and the model re-parses the position texts.',
+        'design_ref': 'DESIGN.md section 0.6 and section 7 C02',
+        'note': 'Trusted: Coq kernel + vm_compute (vm_cast_no_check only to avoid double evaluation; the kernel checks the cast); translator gen_tables.py; harness c02.py. No axioms. "Assigning by name" through the API is exercised on the implementation (and by the heap model of C09-C12); the theorems speak about parsing/encoding the position text. MSH positions: round trip proved (C01_segment_MSH), single-child form not stated.',
+        'technique': 'Coq position theorems over the parser/encoder model + exhaustive per-row obligations by vm_compute + exhaustive implementation sweep',
     },
     'C03': {
-        'text': 'Partial proof. For every text, table, delimiter set and level: an accepted segment line yields exactly '
-                'one Field per non-blank field repetition in text order and the non-blank leaf texts held by the tree are '
-                'exactly those of the line in the same order (C03_segment_keeps_leaves/_all_fields, unbounded, about '
-                'Model/Parser.v); admission appends children unchanged. The encoder half and the message level (segment '
-                'sequence under group finding) are decided by the model differential and by the oracle on messages with '
-                'foreign, Z and repeated segments and surplus fields, both group modes, all versions.',
-        'design_ref': 'DESIGN.md section 7 C03',
-        'note': 'Trusted: Coq kernel + vm_compute; translators; harness segcorr.py/c03.py. No axioms. Not proved: encoder '
-                'emits every held leaf; message-level order (needs Model/Message.v).',
-        'technique': 'Coq proof of leaf/field preservation of the parser model + model differential + message oracle',
+        'text': 'Proof at segment level, for EVERY accepted line (non-canonical included: surplus fields/components/subcomponents, blank pieces, repeated non-repeatable fields): the tree holds exactly the non-blank leaf texts of the line in order (C03_segment_keeps_leaves, _all_fields), and the encoder emits every held leaf in order (C03_encoder_emits_all_leaves, C03_segment_leaves_preserved, _Z) - together leaves(encode(parse(line))) = encoded leaves(line); flattening the grouped forest gives the input segment order (C08_order). The oracle checks segment sequence and per-segment leaves on messages with foreign, Z and repeated segments in both group modes, all versions.',
+        'design_ref': 'DESIGN.md section 0.6 and section 7 C03',
+        'note': 'Trusted: Coq kernel + vm_compute; translators; harness c03.py/segcorr.py. No axioms. TOLERANT; the encoder theorem excludes MSH lines and is conditional on the output containing no CR; message-level no-drop rests on C08_order + C15 (flat) and the oracle.',
+        'technique': 'Coq proof of leaf preservation through parser and encoder models + model differential + message oracle',
     },
     'C17': {
         'text': 'Proof (Coq), structural: in the model every entry point takes the configuration of process-wide defaults '
@@ -135,18 +107,10 @@ CHECKS = {
         'technique': 'Coq proof that the parser model threads the given reference + differential on synthesised profiles',
     },
     'C05': {
-        'text': 'Partial proof. For all trees, tables and texts every STRICT-only branch of child admission (segment, '
-                'field, component level, incl. the cardinality check) and of textual leaf construction only refuses: '
-                'what STRICT admits TOLERANT admits with the identical result (C05_admission_subset_*, '
-                'C05_textual_leaf_subset). The full parse-level simulation and the clause "STRICT-accepted => only '
-                'missing-required validator errors" are decided by running the Coq parser model at BOTH levels against '
-                'hl7apy on generated lines (valid/invalid/over-long leaves) and by the oracle on segments and messages '
-                '(known findings F14, F18).',
-        'design_ref': 'DESIGN.md section 7 C05',
-        'note': 'Trusted: Coq kernel + vm_compute; translators; harness c05.py/segcorr.py. No axioms. Not proved: the '
-                'constructors\' STRICT branches and the numeric/date datatype layer in the simulation; API histories are '
-                'exercised by the heap checks.',
-        'technique': 'Coq subset lemmas for admission and textual leaves + both-levels model differential + oracle',
+        'text': 'Proof at parse level: for every text, delimiter set, reference and any pair of leaf functions related STRICT=>TOLERANT: parse_segment STRICT = Ok s implies parse_segment TOLERANT = Ok s (the SAME tree), hence identical ER7 (C05_parse_segment_subset, _same_er7, field/component versions under exact side conditions; also for the full datatype layer: C05_parse_segment_subset_full_leaf); every STRICT-only branch of admission only refuses (C05_admission_subset_*). The unrestricted constructor statement is refuted (C05_component_ctor_subset_refuted = F26). The "STRICT-accepted => only missing-required validator errors" clause and messages are decided by the both-levels model differential and the oracle (STRICT API refusal catalogue, per-base-datatype probes; known findings F14, F18).',
+        'design_ref': 'DESIGN.md section 0.6 and section 7 C05',
+        'note': 'Trusted: Coq kernel + vm_compute; translators; harness c05.py. No axioms. Histories of API calls under both levels are exercised by the heap checks; the validator-enforcement clause is oracle-only.',
+        'technique': 'Coq simulation proof STRICT => TOLERANT over the parser model + both-levels differential + STRICT refusal oracle',
     },
     'C13': {
         'text': 'Partial proof (36 theorems). An implementation-shaped Gallina model of the DT/TM/DTM/NM/SI factories '
